@@ -158,3 +158,32 @@ Proof.
   intros s1 E. vm_compute in E. inversion E; subst.
   split; eexists; eexists; (split; [vm_compute; reflexivity|]); repeat split; vm_compute; reflexivity.
 Qed.
+
+(* --- once-cells inside frozen values: WHEN a lazily filled cell is unobservable ------------------------------- *)
+
+(* `trun initT` = the model with a per-thread initialiser (thread t computes the candidate `initT t x`).  If the
+   candidate does not depend on the initialising thread, lazily filling the cell is unobservable: for every schedule the
+   operations of thread t run alone give exactly t's observations in the concurrent run ... *)
+Theorem C20_once_thread_independent_unobservable : forall initT tr s s' obs t, thread_independent initT ->
+  Inv (initT t) s -> local_ops t tr ->
+  trun initT tr s = Some (s', obs) ->
+  exists s'', trun initT (proj t tr) s = Some (s'', proj t obs).
+Proof. exact once_thread_independent_unobservable. Qed.
+
+(* ... and that condition is exactly what is needed: whenever two threads would compute different candidates for a cell
+   that is still empty (a frozen enum/record type named after the variable of whichever loading thread binds it first),
+   there is a schedule in which a thread's observations differ from those of its own operations run alone *)
+Theorem C20_once_thread_dependent_observable : forall initT t1 t2 x s, once s x = None -> initT t1 x <> initT t2 x ->
+  exists s' s'',
+    trun initT [(t1, OOnceBegin x); (t1, OOnceEnd); (t2, OOnceBegin x); (t2, OOnceEnd)] s
+      = Some (s', [(t1, EvOnce x (initT t1 x)); (t2, EvOnce x (initT t1 x))]) /\
+    trun initT (proj t2 [(t1, OOnceBegin x); (t1, OOnceEnd); (t2, OOnceBegin x); (t2, OOnceEnd)]) s
+      = Some (s'', [(t2, EvOnce x (initT t2 x))]) /\
+    proj t2 [(t1, EvOnce x (initT t1 x)); (t2, EvOnce x (initT t1 x))] <> [(t2, EvOnce x (initT t2 x))].
+Proof. exact once_thread_dependent_observable. Qed.
+
+(* two binders: thread t names the cell 100 + t.  Thread 1 binds first: thread 0 reads 101 where alone it reads 100 *)
+Example C20_ex_first_binder_wins :
+  option_map snd (trun (fun t _ => 100 + t) [Ob 1 4; Oe 1; Ob 0 4; Oe 0] s0) = Some [(1, EvOnce 4 101); (0, EvOnce 4 101)] /\
+  option_map snd (trun (fun t _ => 100 + t) (proj 0 [Ob 1 4; Oe 1; Ob 0 4; Oe 0]) s0) = Some [(0, EvOnce 4 100)].
+Proof. split; vm_compute; reflexivity. Qed.
